@@ -40,3 +40,23 @@ Definition lock_step (t : ltable) (op : lop) : ltable :=
   | OLock b o k => match try_lock t b o k with Some t' => t' | None => t end
   | OUnlock b o => unlock t b o
   end.
+
+(* ---------- lock_all as a sequence of lock() calls ---------- *)
+(* The calls themselves are generated from the source (Gen/RestoreLocks.v).  lock() retries a
+   refused F_SETLK until its timeout and then fails, which makes lock_all -- and the restore --
+   fail before the destination is touched: a refusal that lasts is `None` here. *)
+Inductive lk := LkRead | LkWrite | LkUnlock.
+
+Fixpoint run_locks (t : ltable) (w : Z) (calls : list (lk * Z)) : option ltable :=
+  match calls with
+  | [] => Some t
+  | (LkUnlock, b) :: r => run_locks (unlock t b w) w r
+  | (LkRead, b) :: r => match try_lock t b w LRead with Some t' => run_locks t' w r | None => None end
+  | (LkWrite, b) :: r => match try_lock t b w LWrite with Some t' => run_locks t' w r | None => None end
+  end.
+
+Definition lk_eqb (a b : lk) : bool :=
+  match a, b with LkRead, LkRead | LkWrite, LkWrite | LkUnlock, LkUnlock => true | _, _ => false end.
+(* does the call sequence take a write lock on byte b? *)
+Definition write_locks (calls : list (lk * Z)) (b : Z) : bool :=
+  existsb (fun c => lk_eqb (fst c) LkWrite && (snd c =? b)) calls.
